@@ -73,7 +73,8 @@ def entry_points():
         "JSONArrayOfObjects::from_json": ("json.parse.l_obj", JSON_ARR["l_obj"] + ja[:2], one),
         "Base64::decode": ("b64.decode", [b"aGVsbG8gd29ybGQ=", b"QQ==", b"QUI=", b"QUJD", b"", base64.b64encode(bytes(range(256)))], one),
         "FormMultipartData::parse": ("mp.parse", None, None),
-        "FormMultipartData::extract_boundary": ("mp.boundary", [b"multipart/form-data; boundary=----WebKitFormBoundaryX", b"multipart/form-data; boundary=\"q\"; charset=utf-8", b"multipart/form-data"], one),
+        "FormMultipartData::extract_boundary": ("mp.boundary", [b"multipart/form-data; boundary=----WebKitFormBoundaryX", b"multipart/form-data; boundary=\"q\"; charset=utf-8", b"multipart/form-data",
+                                                              b"multipart/form-data; Boundary=x", b"multipart/form-data; charset=utf-8; boundary=\"a b\"", b"multipart/mixed; boundary=gc0p4Jq0M2Yt08jU534c0p", b"multipart/form-data; name=v; boundary="], one),
         "Request::parse": ("req.parse", REQ, one),
         "Response::parse": ("resp.parse", RESP + respf, one),
         "Response::_parse_response": ("resp._parse", RESP + respf, one),
@@ -84,7 +85,10 @@ def entry_points():
         "Request::parse_method_and_request_uri_and_http_version_string": ("req.line", [b"GET / HTTP/1.1", b"POST /a?b HTTP/1.0"], one),
         "Header::parse": ("hdr.parse", [b"Content-Type: text/html", b"Host: localhost:80", b"X: y: z", b"Set-Cookie: a=b; c=d"], one),
         "Header::parse_header": ("hdr.parse_header", [b"Content-Type: text/html", b"X: y: z"], one),
-        "ContentDisposition::parse": ("cd.parse", [b"form-data; name=\"field\"", b"form-data; name=\"f\"; filename=\"a.txt\"", b"attachment; filename=\"x.bin\"", b"inline", b"attachment"], one),
+        "ContentDisposition::parse": ("cd.parse", [b"form-data; name=\"field\"", b"form-data; name=\"f\"; filename=\"a.txt\"", b"attachment; filename=\"x.bin\"", b"inline", b"attachment",
+                                                   # RFC 6266 / 5987 / 2231 syntax a client may send whether or not the library understands it
+                                                   b"attachment; filename*=UTF-8''%e2%82%ac%20rates", b"form-data; name=\"f\"; filename*=iso-8859-1'en'%A3%20rates",
+                                                   b"attachment; filename=\"EURO rates\"; filename*=utf-8''%e2%82%ac%20rates", b"form-data; name*0=\"a\"; name*1=\"b\"", b"form-data; name=f; filename=\"a\\\"b.txt\""], one),
         "Range::parse_range_in_content_range": ("range.parse", [b"0-10", b"5-", b"-5", b" 1 - 2 "], lambda d: [b"100", d]),
         "Range::parse_content_range": ("range.content", [b"bytes=0-10", b"bytes=0-3, 5-9", b"bytes=-5", b"bytes=5-"], lambda d: [b"/repo-file", b"1000", d]),
         "Range::_parse_content_range_header_value": ("range.crhv", [b"bytes 0-10/100", b"bytes 5-5/6"], one),
@@ -160,10 +164,13 @@ def run(c):
         d0 = max(docs[:3], key=len)
         for kind, m in mutate.truncations(d0, cap=None if len(d0) < 600 else 400):
             add(name, op, mk(m), kind, m)
-        for d in docs[:8]:
+        for d in docs[:12]:
             if d is not d0 and len(d) < 300:
                 for kind, m in mutate.truncations(d):
                     add(name, op, mk(m), kind, m)
+        for d in docs[:12]:
+            for kind, m in mutate.special_inserts(d):
+                add(name, op, mk(m), kind, m)
         add(name, op, mk(b""), "empty", b"")
         for d in docs[:3]:
             for kind, m in mutate.repetitions(d, BOMB_SIZES):
